@@ -186,7 +186,9 @@ fn run_cat(env: &Env, sd: &str, name: &str, det: bool, expr: &str) -> Result<Vec
 fn eval_render(env: &Env, _op: &str, f: &[&str]) -> CaseRec {
     let (sd, name, det, expr) = (untext(f[2]), untext(f[3]), f[5] == "1", untext(f[6]));
     // the model always runs on the CURRENT template and exclusion list
-    let op = format!("render {} {} {} {} {} {} {}", thex(&env.template), f[2], f[3], thex(&BASH_EXCLUDED_VARIABLES.join("|")), thex(RENDER_ENV_NAMES), f[5], f[6]);
+    // the state directory reaches the template quoted for the shell (fix 5a8761d): the model substitutes that text
+    let sd_quoted = shell_escape::unix::escape(std::borrow::Cow::from(sd.as_str())).to_string();
+    let op = format!("render {} {} {} {} {} {} {}", thex(&env.template), thex(&sd_quoted), f[3], thex(&BASH_EXCLUDED_VARIABLES.join("|")), thex(RENDER_ENV_NAMES), f[5], f[6]);
     let mut fails = vec![];
     let real = run_cat(env, &sd, &name, det, &expr);
     let sent = run_cat(env, &sd, &name, det, SENTINEL);
